@@ -1,49 +1,137 @@
 import Nsq.Model.RelayRedirect
 /-!
 Helper lemmas about `Nsq.Model.RelayRedirect.doReq` (the `http.Client.Do` model) for `Nsq.Props.C20Redirect`.
+
+What a `CheckRedirect` guarantees is stated on the `Check` (`MethodPreserving`, `Limited`, `NoError`) and proved for
+the clients of fix F45 (`checkNever`) and fix F45b (`checkSameMethod`); what is needed from the destinations is
+stated on the `World` (`KeepsQuery` — GET publisher only; `NoLossyRedirect` — for the client without `CheckRedirect`).
 -/
 namespace Nsq.Proofs.RelayRedirect
 open Nsq.Model.Relay Nsq.Model.RelayRedirect
 
-/-- the client of fix F45 makes exactly one request and reports its answer -/
-theorem doReq_nofollow (w : World) (left ep : Nat) (post : Bool) (payload : Option Bytes) :
-    doReq false w left ep post payload =
-      ([⟨ep, post, payload, finalOf (w ep post payload)⟩], finalOf (w ep post payload)) := by
-  cases left with
-  | zero => unfold doReq; split <;> simp
-  | succ n => unfold doReq; split <;> simp
+/-! ### properties of a `Check` -/
 
-theorem delivered_nofollow (post : Bool) (w : World) (a : Nat) (body : Bytes)
-    (h : Http.accepts post (seenBy false post w body a) = true) : Delivered false post w a body := by
-  unfold seenBy at h
-  rw [doReq_nofollow] at h
+/-- the client follows only redirects for which net/http kept the method of the first request -/
+def MethodPreserving (check : Check) : Prop := ∀ rp vp n, check rp vp n = .follow → rp = vp
+/-- the client makes at most ten requests per `Do` -/
+def Limited (check : Check) : Prop := ∀ rp vp n, check rp vp n = .follow → n < 10
+/-- `CheckRedirect` never fails `Do`: the caller always gets the last answer -/
+def NoError (check : Check) : Prop := ∀ rp vp n, check rp vp n ≠ .error
+
+theorem methodPreserving_never : MethodPreserving checkNever := by
+  intro rp vp n h; simp [checkNever] at h
+theorem limited_never : Limited checkNever := by
+  intro rp vp n h; simp [checkNever] at h
+theorem noError_never : NoError checkNever := by
+  intro rp vp n h; simp [checkNever] at h
+
+theorem methodPreserving_sameMethod : MethodPreserving checkSameMethod := by
+  intro rp vp n h
+  unfold checkSameMethod at h
+  by_cases hc : rp ≠ vp ∨ n ≥ 10
+  · simp [hc] at h
+  · simp only [not_or, ne_eq, Decidable.not_not] at hc; exact hc.1
+theorem limited_sameMethod : Limited checkSameMethod := by
+  intro rp vp n h
+  unfold checkSameMethod at h
+  by_cases hc : rp ≠ vp ∨ n ≥ 10
+  · simp [hc] at h
+  · simp only [not_or] at hc; omega
+theorem noError_sameMethod : NoError checkSameMethod := by
+  intro rp vp n h
+  unfold checkSameMethod at h
+  by_cases hc : rp ≠ vp ∨ n ≥ 10 <;> simp [hc] at h
+/-- … and it follows EXACTLY those: a redirect that keeps the method is followed while fewer than ten requests were made -/
+theorem sameMethod_follows_iff (rp vp : Bool) (n : Nat) :
+    checkSameMethod rp vp n = .follow ↔ rp = vp ∧ n < 10 := by
+  unfold checkSameMethod
+  by_cases hc : rp ≠ vp ∨ n ≥ 10
+  · simp only [hc, if_true]
+    constructor
+    · intro h; cases h
+    · intro h; rcases hc with hc | hc
+      · exact absurd h.1 hc
+      · omega
+  · simp only [hc, if_false, true_iff]
+    simp only [not_or, ne_eq, Decidable.not_not] at hc
+    exact ⟨hc.1, by omega⟩
+
+theorem limited_default : Limited checkDefault := by
+  intro rp vp n h
+  unfold checkDefault at h
+  by_cases hc : n ≥ 10
+  · simp [hc] at h
+  · omega
+
+/-! ### the client of fix F45 -/
+
+/-- the client of fix F45 makes exactly one request and reports its answer -/
+theorem doReq_never (w : World) (post0 : Bool) (fuel nvia ep : Nat) (post : Bool) (payload : Option Bytes) :
+    doReq checkNever w post0 (fuel + 1) nvia ep post payload =
+      ([⟨ep, post, payload, finalOf (w ep post payload)⟩], finalOf (w ep post payload)) := by
+  unfold doReq
+  cases hf : followUp (w ep post payload) with
+  | none => rfl
+  | some lk => simp [checkNever]
+
+theorem delivered_never (post : Bool) (w : World) (a : Nat) (body : Bytes)
+    (h : Http.accepts post (seenBy checkNever post w body a) = true) : Delivered checkNever post w a body := by
+  unfold seenBy redirectFuel at h
+  rw [doReq_never] at h
   refine ⟨⟨a, post, some body, finalOf (w a post (some body))⟩, ?_, rfl, rfl, h⟩
-  unfold wireOf
-  rw [doReq_nofollow]
+  unfold wireOf redirectFuel
+  rw [doReq_never]
   simp
 
-/-- no endpoint answers with a redirect that makes the following client drop the message:
+/-! ### chains that keep the message -/
+
+/-- every follow-up request that the client makes for an answer to a request carrying the message has the
+publisher's method and carries the message again -/
+def ChainKeeps (check : Check) (w : World) (post0 : Bool) (body : Bytes) : Prop :=
+  ∀ ep lk n, followUp (w ep post0 (some body)) = some lk → check (post0 && lk.2) post0 n = .follow →
+    (post0 && lk.2) = post0 ∧ nextPayload post0 lk (some body) = some body
+
+/-- the destinations' `Location`s repeat the query of the GET they answer (GET publisher: the message is in the query) -/
+def KeepsQuery (w : World) : Prop :=
+  ∀ ep pl lk, followUp (w ep false pl) = some lk → lk.1.keepsQuery = true
+
+/-- no endpoint answers with a redirect that makes the client without `CheckRedirect` drop the message:
 redirects that are followed keep method and body (307/308) and occur only for POST -/
 def NoLossyRedirect (post : Bool) (w : World) : Prop :=
-  ∀ ep p pl nk, followUp (w ep p pl) = some nk → post = true ∧ nk.2 = true
+  ∀ ep p pl lk, followUp (w ep p pl) = some lk → post = true ∧ lk.2 = true
 
-/-- under `NoLossyRedirect` every request of a chain carries the message with the publisher's method, and the
+/-- POST publisher: `MethodPreserving` alone is enough — net/http re-sends the body whenever it keeps the method -/
+theorem chainKeeps_post (check : Check) (h : MethodPreserving check) (w : World) (body : Bytes) :
+    ChainKeeps check w true body := by
+  intro ep lk n _ hc
+  have := h _ _ _ hc
+  simp only [Bool.true_and] at this
+  simp [nextPayload, this]
+
+/-- GET publisher: the method never changes; the message survives iff the `Location` keeps the query -/
+theorem chainKeeps_get (check : Check) (w : World) (hq : KeepsQuery w) (body : Bytes) :
+    ChainKeeps check w false body := by
+  intro ep lk n hf _
+  simp [nextPayload, hq ep (some body) lk hf]
+
+theorem chainKeeps_noLossy (check : Check) (post : Bool) (w : World) (h : NoLossyRedirect post w) (body : Bytes) :
+    ChainKeeps check w post body := by
+  intro ep lk n hf _
+  obtain ⟨hp, hk⟩ := h ep post (some body) lk hf
+  subst hp
+  simp [nextPayload, hk]
+
+/-- under `ChainKeeps` every request of a chain carries the message with the publisher's method, and the
 status the publisher sees is the status of one of them (the last) -/
-theorem doReq_keeps (post : Bool) (w : World) (body : Bytes) (h : NoLossyRedirect post w) (left ep : Nat) :
-    (∀ x ∈ (doReq true w left ep post (some body)).1, x.payload = some body ∧ x.post = post) ∧
-    (∀ s, (doReq true w left ep post (some body)).2 = some s →
-      ∃ x ∈ (doReq true w left ep post (some body)).1, x.status = some s) := by
-  induction left generalizing ep with
+theorem doReq_keeps (check : Check) (post : Bool) (w : World) (body : Bytes) (h : ChainKeeps check w post body)
+    (fuel nvia ep : Nat) :
+    (∀ x ∈ (doReq check w post fuel nvia ep post (some body)).1, x.payload = some body ∧ x.post = post) ∧
+    (∀ s, (doReq check w post fuel nvia ep post (some body)).2 = some s →
+      ∃ x ∈ (doReq check w post fuel nvia ep post (some body)).1, x.status = some s) := by
+  induction fuel generalizing nvia ep with
   | zero =>
     unfold doReq
-    cases hf : followUp (w ep post (some body)) with
-    | none =>
-      simp only []
-      exact ⟨fun x hx => by simp at hx; subst hx; exact ⟨rfl, rfl⟩,
-             fun s hs => ⟨_, List.mem_singleton.mpr rfl, hs⟩⟩
-    | some nk =>
-      simp only [if_true]
-      exact ⟨fun x hx => by simp at hx; subst hx; exact ⟨rfl, rfl⟩, fun s hs => by cases hs⟩
+    exact ⟨fun x hx => (by cases hx), fun s hs => (by cases hs)⟩
   | succ n ih =>
     unfold doReq
     cases hf : followUp (w ep post (some body)) with
@@ -51,29 +139,165 @@ theorem doReq_keeps (post : Bool) (w : World) (body : Bytes) (h : NoLossyRedirec
       simp only []
       exact ⟨fun x hx => by simp at hx; subst hx; exact ⟨rfl, rfl⟩,
              fun s hs => ⟨_, List.mem_singleton.mpr rfl, hs⟩⟩
-    | some nk =>
-      simp only [if_true]
-      obtain ⟨hp, hk⟩ := h ep post (some body) nk hf
-      subst hp
-      rw [hk]
-      simp only [Bool.and_self, if_true]
-      obtain ⟨ih1, ih2⟩ := ih nk.1
-      refine ⟨fun x hx => ?_, fun s hs => ?_⟩
-      · rcases List.mem_cons.mp hx with rfl | hx
-        · exact ⟨rfl, rfl⟩
-        · exact ih1 x hx
-      · obtain ⟨x, hx, hst⟩ := ih2 s hs
-        exact ⟨x, List.mem_cons_of_mem _ hx, hst⟩
+    | some lk =>
+      simp only []
+      cases hc : check (post && lk.2) post (nvia + 1) with
+      | useLast =>
+        simp only []
+        exact ⟨fun x hx => by simp at hx; subst hx; exact ⟨rfl, rfl⟩,
+               fun s hs => ⟨_, List.mem_singleton.mpr rfl, hs⟩⟩
+      | error =>
+        simp only []
+        exact ⟨fun x hx => by simp at hx; subst hx; exact ⟨rfl, rfl⟩, fun s hs => by cases hs⟩
+      | follow =>
+        simp only []
+        obtain ⟨hp, hpl⟩ := h ep lk (nvia + 1) hf hc
+        rw [hp, hpl]
+        obtain ⟨ih1, ih2⟩ := ih (nvia + 1) lk.1.ep
+        refine ⟨fun x hx => ?_, fun s hs => ?_⟩
+        · rcases List.mem_cons.mp hx with rfl | hx
+          · exact ⟨rfl, rfl⟩
+          · exact ih1 x hx
+        · obtain ⟨x, hx, hst⟩ := ih2 s hs
+          exact ⟨x, List.mem_cons_of_mem _ hx, hst⟩
 
-theorem delivered_following (post : Bool) (w : World) (a : Nat) (body : Bytes) (h : NoLossyRedirect post w)
-    (hacc : Http.accepts post (seenBy true post w body a) = true) : Delivered true post w a body := by
+theorem delivered_of_keeps (check : Check) (post : Bool) (w : World) (a : Nat) (body : Bytes)
+    (h : ChainKeeps check w post body)
+    (hacc : Http.accepts post (seenBy check post w body a) = true) : Delivered check post w a body := by
   unfold seenBy at hacc
-  obtain ⟨h1, h2⟩ := doReq_keeps post w body h redirectLimit a
-  cases hs : (doReq true w redirectLimit a post (some body)).2 with
+  obtain ⟨h1, h2⟩ := doReq_keeps check post w body h redirectFuel 0 a
+  cases hs : (doReq check w post redirectFuel 0 a post (some body)).2 with
   | none => rw [hs] at hacc; simp [Http.accepts] at hacc
   | some s =>
     obtain ⟨x, hx, hst⟩ := h2 s hs
     refine ⟨x, hx, (h1 x hx).1, (h1 x hx).2, ?_⟩
     rw [hst, ← hs]; exact hacc
+
+/-! ### what holds for a method-preserving client whatever the `Location`s say -/
+
+/-- every request of the chain has the publisher's method, and the status the publisher sees is the answer to the
+last request of the chain -/
+theorem doReq_chain (check : Check) (h : MethodPreserving check) (post : Bool) (w : World)
+    (fuel nvia ep : Nat) (payload : Option Bytes) :
+    (∀ x ∈ (doReq check w post fuel nvia ep post payload).1, x.post = post) ∧
+    (∀ s, (doReq check w post fuel nvia ep post payload).2 = some s →
+      ((doReq check w post fuel nvia ep post payload).1.getLast?.bind (·.status)) = some s) := by
+  induction fuel generalizing nvia ep payload with
+  | zero =>
+    unfold doReq
+    exact ⟨fun x hx => (by cases hx), fun s hs => (by cases hs)⟩
+  | succ n ih =>
+    unfold doReq
+    cases hf : followUp (w ep post payload) with
+    | none =>
+      simp only []
+      exact ⟨fun x hx => by simp at hx; subst hx; rfl, fun s hs => by simpa using hs⟩
+    | some lk =>
+      simp only []
+      cases hc : check (post && lk.2) post (nvia + 1) with
+      | useLast =>
+        simp only []
+        exact ⟨fun x hx => by simp at hx; subst hx; rfl, fun s hs => by simpa using hs⟩
+      | error =>
+        simp only []
+        exact ⟨fun x hx => by simp at hx; subst hx; rfl, fun s hs => by cases hs⟩
+      | follow =>
+        simp only []
+        rw [h _ _ _ hc]
+        obtain ⟨ih1, ih2⟩ := ih (nvia + 1) lk.1.ep (nextPayload post lk payload)
+        refine ⟨fun x hx => ?_, fun s hs => ?_⟩
+        · rcases List.mem_cons.mp hx with rfl | hx
+          · rfl
+          · exact ih1 x hx
+        · have hl := ih2 s hs
+          cases hw : (doReq check w post n (nvia + 1) lk.1.ep post (nextPayload post lk payload)).1 with
+          | nil => rw [hw] at hl; simp at hl
+          | cons y ys => rw [hw] at hl; simpa [List.getLast?_cons_cons] using hl
+
+/-- the first request of a chain is the publisher's own: to the configured address, carrying the message -/
+theorem doReq_head (check : Check) (w : World) (post0 : Bool) (fuel nvia ep : Nat) (post : Bool) (payload : Option Bytes) :
+    (doReq check w post0 (fuel + 1) nvia ep post payload).1.head? =
+      some ⟨ep, post, payload, finalOf (w ep post payload)⟩ := by
+  unfold doReq
+  cases hf : followUp (w ep post payload) with
+  | none => rfl
+  | some lk =>
+    simp only []
+    cases hc : check (post && lk.2) post0 (nvia + 1) <;> rfl
+
+/-! ### the ten-request limit -/
+
+/-- a `Limited` client never makes more than ten requests -/
+theorem doReq_length (check : Check) (h : Limited check) (w : World) (post0 : Bool) (fuel nvia ep : Nat) (post : Bool)
+    (payload : Option Bytes) (hn : nvia < 10) :
+    (doReq check w post0 fuel nvia ep post payload).1.length ≤ 10 - nvia := by
+  induction fuel generalizing nvia ep post payload with
+  | zero => unfold doReq; simp
+  | succ n ih =>
+    unfold doReq
+    cases hf : followUp (w ep post payload) with
+    | none => simp only [List.length_singleton]; omega
+    | some lk =>
+      simp only []
+      cases hc : check (post && lk.2) post0 (nvia + 1) with
+      | useLast => simp only [List.length_singleton]; omega
+      | error => simp only [List.length_singleton]; omega
+      | follow =>
+        simp only [List.length_cons]
+        have hlt := h _ _ _ hc
+        have := ih (nvia + 1) lk.1.ep (post && lk.2) (nextPayload post lk payload) hlt
+        omega
+
+/-- … so the `fuel` of the model (the request timeout that would end an endless chain) is never what stops it:
+any fuel ≥ 10 − `nvia` gives the same chain -/
+theorem doReq_fuel_irrelevant (check : Check) (h : Limited check) (w : World) (post0 : Bool) (fuel nvia ep : Nat)
+    (post : Bool) (payload : Option Bytes) (hn : nvia < 10) (hfuel : 10 - nvia ≤ fuel) :
+    doReq check w post0 fuel nvia ep post payload = doReq check w post0 (10 - nvia) nvia ep post payload := by
+  induction fuel generalizing nvia ep post payload with
+  | zero => omega
+  | succ n ih =>
+    obtain ⟨k, hk⟩ : ∃ k, 10 - nvia = k + 1 := ⟨9 - nvia, by omega⟩
+    rw [hk]
+    unfold doReq
+    cases hf : followUp (w ep post payload) with
+    | none => rfl
+    | some lk =>
+      simp only []
+      cases hc : check (post && lk.2) post0 (nvia + 1) with
+      | useLast => rfl
+      | error => rfl
+      | follow =>
+        simp only []
+        have hlt := h _ _ _ hc
+        have hk' : k = 10 - (nvia + 1) := by omega
+        rw [ih (nvia + 1) lk.1.ep (post && lk.2) (nextPayload post lk payload) hlt (by omega), hk']
+
+/-- a client whose `CheckRedirect` is `Limited` and never an error hands the caller the answer to the LAST request it
+made — in particular the 3xx answer to its tenth request -/
+theorem doReq_seen_is_last (check : Check) (hl : Limited check) (he : NoError check) (w : World) (post0 : Bool)
+    (fuel nvia ep : Nat) (post : Bool) (payload : Option Bytes) (hn : nvia < 10) (hfuel : 10 - nvia ≤ fuel) :
+    (doReq check w post0 fuel nvia ep post payload).2 =
+      (doReq check w post0 fuel nvia ep post payload).1.getLast?.bind (·.status) := by
+  induction fuel generalizing nvia ep post payload with
+  | zero => omega
+  | succ n ih =>
+    unfold doReq
+    cases hf : followUp (w ep post payload) with
+    | none => simp
+    | some lk =>
+      simp only []
+      cases hc : check (post && lk.2) post0 (nvia + 1) with
+      | useLast => simp
+      | error => exact absurd hc (he _ _ _)
+      | follow =>
+        simp only []
+        have hlt := hl _ _ _ hc
+        rw [ih (nvia + 1) lk.1.ep (post && lk.2) (nextPayload post lk payload) hlt (by omega)]
+        obtain ⟨m, hm⟩ : ∃ m, n = m + 1 := ⟨n - 1, by omega⟩
+        have hh := doReq_head check w post0 m (nvia + 1) lk.1.ep (post && lk.2) (nextPayload post lk payload)
+        rw [← hm] at hh
+        cases hw : (doReq check w post0 n (nvia + 1) lk.1.ep (post && lk.2) (nextPayload post lk payload)).1 with
+        | nil => rw [hw] at hh; simp at hh
+        | cons y ys => simp [List.getLast?_cons_cons]
 
 end Nsq.Proofs.RelayRedirect
